@@ -302,7 +302,7 @@ def compare(exp: Expect, snap, completed, logged):
             for i, (w, g) in enumerate(zip(want, got)):
                 if c in allkeys and allkeys[c] in w:
                     d = diff(w[allkeys[c]], g[c])
-                    if d and any(k2 != allkeys[c] and diff(w[k2], g[c]) is None for k2 in w):
+                    if d and not is_none(g[c]) and any(k2 != allkeys[c] and diff(w[k2], g[c]) is None for k2 in w):
                         # the cell holds what the evaluator yielded under ANOTHER key of the same row
                         orders = {tuple(map(str, r)) for r in want}
                         d, f2 = 'value filed under another field of the same row', (
@@ -637,7 +637,8 @@ class C07(Check):
                     d = identical(snaps['none'], r, strict_columns=stage != 'restored')
                     if d: note(mode, f'identity|Result(no file) != Result(run with file)|{d[0]}', d[1])
             finally:
-                shutil.rmtree(casedir, ignore_errors=True)
+                if os.path.exists(path): os.unlink(path)
+        shutil.rmtree(casedir, ignore_errors=True)
 
         base = found.get('none', {})
         for key, what in base.items():
